@@ -36,6 +36,15 @@ def pair(d, collide):
         s1 = {idk: mid, "definitions": {"nonNegativeInteger": {"maximum": 3}}, "items": {"$ref": "#/definitions/nonNegativeInteger"}}
         s2 = {idk: mid, "definitions": {"nonNegativeInteger": {"minimum": 7}}, "items": {"$ref": "#/definitions/nonNegativeInteger"}}
         return (s1, {}, None), (s2, {}, None)
+    if collide == "same-schema-object":
+        # one schema object, two validators, each with the resolver the class builds by default; a reference into another document
+        # (a bundled metaschema: always available) followed by a local reference of the same name
+        meta = {3: "http://json-schema.org/draft-03/schema#/properties/minItems", 4: "http://json-schema.org/draft-04/schema#/definitions/positiveInteger",
+                6: "http://json-schema.org/draft-06/schema#/definitions/nonNegativeInteger", 7: "http://json-schema.org/draft-07/schema#/definitions/nonNegativeInteger"}[d]
+        local = meta.split("#")[1]
+        s = {"definitions": {local.split("/")[-1]: {"maximum": 3}}, "properties": {"minItems": {"maximum": 3}},
+             "items": [{"$ref": meta}, {"$ref": "#" + local}]}
+        return (s, None, None), (s, None, None)
     if collide == "remote":
         s = {"items": {"$ref": REMOTE + "#/definitions/d"}}
         return (s, {REMOTE: {"definitions": {"d": {"maximum": 3}}}}, None), (dict(s), {REMOTE: {"definitions": {"d": {"minimum": 7}}}}, None)
@@ -65,6 +74,12 @@ def expected(collide, which, inst):
     """what the validator built from schema `which` (0 or 1) of the pair must report, written down independently of any run in this
     process (a baseline computed in-process could already be poisoned by state shared between validators)"""
     out = []
+    if collide == "same-schema-object":
+        if len(inst) > 0 and inst[0] < 0:
+            out.append(["minimum", 0])
+        if len(inst) > 1 and inst[1] > 3:
+            out.append(["maximum", 1])
+        return out
     for i, e in enumerate(inst):
         if collide in ("format-str",):
             bad = len(e) > 1 if which == 0 else len(e) > 0
@@ -83,6 +98,8 @@ def expected(collide, which, inst):
 def make(d, spec):
     schema, store, fc = spec
     cls = tp.CLS[d]
+    if not store:
+        return cls(schema, format_checker=fc)          # the resolver the class creates by default ("validators that share no resolver")
     return cls(schema, resolver=RefResolver.from_schema(schema, id_of=cls.ID_OF, store=store), format_checker=fc)
 
 
@@ -187,10 +204,10 @@ def cube(d, collide, steps, prefix, third=False, same=False, built=False):
     return spec
 
 
-COLLIDE = ["ref", "remote", "relative", "format", "format-str", "pattern", "metaschema-id"]
+COLLIDE = ["ref", "remote", "relative", "format", "format-str", "pattern", "metaschema-id", "same-schema-object"]
 
 
-QUICK = {7: ["ref", "format-str", "metaschema-id"], 4: ["relative", "pattern"]}
+QUICK = {7: ["ref", "format-str", "metaschema-id", "same-schema-object"], 4: ["relative", "pattern"]}
 
 
 def conditions(tier, seed, active):
